@@ -107,6 +107,13 @@ func PreRecv(site string, ch any) {
 	}
 }
 
+// RecvCh is the scheduling point of a receive nested in a larger expression: `<-ch` is rewritten to
+// `<-vrt.RecvCh(site, ch)`.
+func RecvCh[T any](site string, ch <-chan T) <-chan T {
+	PreRecv(site, ch)
+	return ch
+}
+
 // PreClose is the scheduling point before a native close(ch).
 func PreClose(site string, ch any) {
 	e := E
